@@ -91,6 +91,8 @@ func (ip *IPv4) getIPv4OptionSize() int {
 
 		}
 	}
+	// the padding that followed the end of option list when decoding
+	optionSize += len(ip.Padding)
 	// make sure the options are aligned to 32 bit boundary
 	if (optionSize % 4) != 0 {
 		optionSize += 4 - (optionSize % 4)
@@ -161,6 +163,8 @@ func (ip *IPv4) SerializeTo(b gopacket.SerializeBuffer, opts gopacket.SerializeO
 			curLocation += int(opt.OptionLength)
 		}
 	}
+
+	copy(bytes[curLocation:], ip.Padding)
 
 	if opts.ComputeChecksums {
 		// Clear checksum bytes
